@@ -247,7 +247,7 @@ def _accept_cone(ctx, prim, r):
     projection has to be followed by the check.  Decided by reachability: with the accepting edges of
     `satisfies_bounds(state)` removed and the stores of the centre as stops, no return may be reachable after a write to the
     state; and nothing writes the state between an accepting edge and the return."""
-    from ..core import INTERPOLATE
+    from ..core import INTERPOLATE, DISTANCE
     for adt, bty in prim:
         if bty.startswith('std::vec::Vec<') or bty == '(f64, f64)':
             continue
@@ -259,6 +259,19 @@ def _accept_cone(ctx, prim, r):
         is_state = lambda ts: bool(ts) and all(q[0] == 'param' and q[1] == 2 for q in strip_clone(ts))
         centre = lambda ts: bool(ts) and all(q[0] == 'field' and q[2] == '0' and self_field(q[1], 'bounds') for q in strip_clone(ts))
         te, _fe, _sb = fn.bool_edges(lambda m: m[0] == 'call' and m[1] == SS + 'satisfies_bounds' and len(m[2]) == 2 and is_state(m[2][1]))
+        te = set(te)
+        # the bounds check written out: distance(centre, state) <= max_angle (accepting edge), or > (rejecting edge)
+        radius = lambda ts: bool(ts) and all(q[0] == 'field' and q[2] == '1' and self_field(q[1], 'bounds') for q in strip_clone(ts))
+
+        def dist_cs(ts):
+            return bool(ts) and all(d[0] == 'call' and (d[1] == DISTANCE or d[1].endswith('::distance')) and len(d[2]) == 3 and
+                                    ((centre(d[2][1]) and is_state(d[2][2])) or (centre(d[2][2]) and is_state(d[2][1]))) for d in ts)
+        t2, _f2, _s2 = fn.bool_edges(lambda m: m[0] == 'binop' and ((m[1] == 'Le' and dist_cs(m[2]) and radius(m[3])) or
+                                                                   (m[1] == 'Ge' and radius(m[2]) and dist_cs(m[3]))))
+        te |= set(t2)
+        _t3, f3, _s3 = fn.bool_edges(lambda m: m[0] == 'binop' and ((m[1] == 'Gt' and dist_cs(m[2]) and radius(m[3])) or
+                                                                   (m[1] == 'Lt' and radius(m[2]) and dist_cs(m[3]))))
+        te |= set(f3)
         writes, centre_stores = [], set()
         for bi, blk in enumerate(fn.blocks):
             if blk['cleanup']:
